@@ -307,6 +307,15 @@ def _t_failure_beside_running(rng, I):
     return nodes
 
 
+def _t_rec_switch_label_changes(rng, I):
+    # a switch inside a recurrent subgraph (1 -> 5) whose decider (2) answers differently from one iteration to the next
+    labels = rng.choice([['L0', 'L1'], ['L0', 'L1', 'L0'], ['L1', 'L0'], ['L0', 'L0', 'L1'], ['L0', 'NOPE']])
+    mx = rng.choice([1, 2, 3])
+    return [N(), N([['a', I(0)]]), N([['a', I(1)]], beh=['strep', labels]), N([['a', I(1)]]), N([['a', I(1)]]),
+            N([['v', ['sw', 2, [['L0', 3], ['L1', 4]]]]], beh=['recur', rng.randint(1, mx)], use_default=rng.random() < 0.3),
+            N([['r', ['rec', 1, 5, mx]]])]
+
+
 def _t_nested_rec(rng, I):
     # an inner recurrent subgraph (2 -> 3) inside an outer one (1 -> 5); with 'receven' the inner one iterates again in every
     # outer pass, with 'recur' only in the first
@@ -321,4 +330,4 @@ TEMPLATES = {'retry_outside_reader': _t_retry_outside_reader, 'default_on_start'
              'shared_case_in_flight': _t_shared_case_in_flight, 'shared_between_candidates': _t_shared_between_candidates,
              'nested_oneof': _t_nested_oneof, 'two_scopes_one_node': _t_two_scopes_one_node,
              'rec_two_consumers': _t_rec_two_consumers, 'candidate_two_deps': _t_candidate_two_deps,
-             'failure_beside_running': _t_failure_beside_running, 'nested_rec': _t_nested_rec}
+             'failure_beside_running': _t_failure_beside_running, 'nested_rec': _t_nested_rec, 'rec_switch_label_changes': _t_rec_switch_label_changes}
